@@ -4,7 +4,7 @@ import ast
 
 from .. import AnalysisError
 from ..cfg import ALL_KINDS, NORMAL_KINDS, iter_own
-from ..lib import _single_return, always_followed_by, attr_stores, dominated_by, guard_forms, key_of, norm, render, return_conditions, type_is
+from ..lib import comp_norm, _single_return, always_followed_by, attr_stores, dominated_by, guard_forms, key_of, norm, render, return_conditions, type_is
 from ..report import describe, rule
 from .c01 import _must_pass, _try_append_test
 
@@ -321,7 +321,7 @@ def c02_10(ctx, r):
     mdl = ctx.cls("GenericCommandParametersModel")
     r.check("blocked_by" in mdl.ann_fields and "blocked_by" not in ctx.src(mdl.methods["dict"].node), "blocked_by is a model field and is never dropped on output", key_of(mdl.methods["dict"], "blocked_by kept"), mdl.methods["dict"].loc(), "blocked_by can be dropped from the serialised job")
     hv = mdl.methods.get("handle_blocked_by")
-    r.check(hv is not None and ctx.src([n for n in iter_own(hv.node) if isinstance(n, ast.Return)][0].value).replace(" ", "") == "{str(x)forxinvalue}", "integer blockers are normalised to the job-name strings", key_of(hv, "normalise") if hv else "handle_blocked_by", hv.loc() if hv else mdl.module.relpath + ":1", "blocked_by normalisation changed")
+    r.check(hv is not None and comp_norm([n for n in iter_own(hv.node) if isinstance(n, ast.Return)][0].value) == "{str(_)for_invalue}", "integer blockers are normalised to the job-name strings", key_of(hv, "normalise") if hv else "handle_blocked_by", hv.loc() if hv else mdl.module.relpath + ":1", "blocked_by normalisation changed")
 
 
 @rule(P, "C02.11", "T14", "resubmission: a rerun dependent's remaining blockers are recomputed on every closure pass, from the closed rerun set", min_obligations=6)
